@@ -41,6 +41,10 @@ def run(ctx):
             msgs.append(rbytes(rng, n))
         else:
             fills.append((0 if k == 0 else 0xff, n))
+    # multiples and neighbours of the block sizes an implementation may stream with (64, 136 = the Keccak rate, 512, 4096, 8192, 65536)
+    for n in sorted(set([a * b + d for a in (64, 136, 512, 1024, 4096, 8192, 65536) for b in (1, 2, 3, 5) for d in (-1, 0, 1)])):
+        if 1100 < n <= 400000:
+            fills.append((rng.choice([0, 0xff, 0x41]), n))
     for k in range(1, 7):
         for d in (-1, 0, 1):
             n = 10 ** k + d
